@@ -215,7 +215,7 @@ def gen_case(rng, op):
 
 
 OPS = ['melody', 'drums', 'chords', 'pianoroll', 'perf', 'metric', 'noteperf']
-PER_OP = {'quick': 330, 'thorough': 12000}
+PER_OP = {'quick': 500, 'thorough': 20000}
 
 
 def cases(rng, tier, n=None):
